@@ -108,6 +108,23 @@ def _dyadic(opd):
     return all(_dy(c.real) and _dy(c.imag) for _, c in opd[1])
 
 
+def _gran(opd):
+    """granularity of a dyadic operand: the largest 2^-a (a <= 15, at most 1) that every real and imaginary
+    coefficient part is a multiple of.  A product of operands has granularity g1 * g2, a p-th power g^p, and every
+    non-zero coefficient of the exact result is at least that large: only when it stays clear of the library's
+    1e-8 drop threshold is "nothing but an exact zero is dropped" true (2^-9 cubed = 7.5e-9 is dropped)"""
+    parts = [opd[1].real, opd[1].imag] if opd[0] == "num" else [x for _, c in opd[1] for x in (c.real, c.imag)]
+    g = 1.0
+    for x in parts:
+        m = int(round(abs(x) * 2**15))
+        if m:
+            g = min(g, (m & -m) / 2**15)
+    return g
+
+
+CLEAR_OF_DROP = 1e-7
+
+
 def _norm(opd):
     return abs(opd[1]) if opd[0] == "num" else D.abs_sum(opd[1])
 
@@ -170,7 +187,7 @@ def _mk_binary(hook, sym, reflected):
             small = [abs(c) / abs(R[1]) for _, c in L[1] if c != 0]
             tight = _dyadic(L) and (not small or min(small) >= 1e-6)
         else:
-            tight = _dyadic(L) and _dyadic(R)
+            tight = _dyadic(L) and _dyadic(R) and (sym != "*" or _gran(L) * _gran(R) >= CLEAR_OF_DROP)
         tol = 1e-12 * max(1.0, scale) + (0.0 if tight else 1e-8 * (nt + 1))
         d = _maxabs(_mat(res, qmap, n) - exp)
         mon.note("regime:dyadic" if tight else "regime:generic")
@@ -216,7 +233,7 @@ def _mk_pow(hook):
         M = _mat(B, qmap, n)
         exp = np.linalg.matrix_power(M, power)
         s = max(1.0, _norm(B))
-        tight = _dyadic(B)
+        tight = _dyadic(B) and _gran(B) ** max(1, power) >= CLEAR_OF_DROP
         w = len(D.qubits_of(B[1]))
         k = min(max(1, len(B[1])) ** max(1, power), 4**w)
         tol = 1e-12 * s**power + (0.0 if tight else 1e-8 * (k + 1) * max(1, power) * s ** max(0, power - 1))
